@@ -20,7 +20,8 @@ RULE = (
     '0.2, 0.3, 2.5, 5} mm and two classified datasets scaled so that the '
     'curves span >= 40 levels including negative ones, EVERY integer k '
     'whose level lies on the assembled curve is used as reference, spelled '
-    'as repr(k*step) and as the decimal text a user types, for both the '
+    'as repr(k*step), as the decimal text a user types and in scientific '
+    'notation, for both the '
     'rise and the recession curve; plus the off-grid references (k+1/2) '
     'step and (k+1/4) step for every k, and no reference.  Oracle: on-grid '
     '-> the command succeeds and the master curve is 0 at level k (1e-9 of '
@@ -53,7 +54,7 @@ def decoy():
 
 
 def BOUND(tier):
-    return ('all on-curve k x {repr, decimal} spellings x {rise, recession} '
+    return ('all on-curve k x {repr, decimal, scientific} spellings x {rise, recession} '
             'x 7 grid steps x 2 datasets; off-grid (k+1/2), (k+1/4) for all '
             'k; no reference; each case at function level and through '
             'main(argv)' + ('' if tier == 'quick' else
@@ -123,6 +124,10 @@ def curve_levels(step, which, curve):
 def spelling(kind, k, step):
     if kind == 'repr':
         return repr(k * step)
+    if kind == 'sci':
+        # scientific notation of the decimal value, e.g. -3.79e+01
+        d = decimal.Decimal(k) * decimal.Decimal(repr(step))
+        return '%e' % d if d == decimal.Decimal('%e' % d) else format(d, 'E')
     d = decimal.Decimal(repr(step))
     if kind == 'decimal':
         return format(decimal.Decimal(k) * d, 'f')
@@ -156,7 +161,7 @@ def spaces(tier):
                 for via in vias:
                     index.append((which, curve, None, 'none', via))
                     for k in ks:
-                        for sp in ('repr', 'decimal', 'half', 'quarter'):
+                        for sp in ('repr', 'decimal', 'sci', 'half', 'quarter'):
                             index.append((which, curve, k, sp, via))
 
         def decode(i, index=index, step=step):
@@ -208,7 +213,7 @@ def run_case(case):
     where = '%s -r %s (level %r x step %r, dataset %d, via %s)' % (
         curve, text, k, step, which, via)
     nontrivial = False
-    if sp in ('repr', 'decimal', 'none'):
+    if sp in ('repr', 'decimal', 'sci', 'none'):
         nontrivial = sp != 'none'
         if err is not None:
             viol.append(('on-grid-reference-refused:' + curve,
